@@ -90,8 +90,8 @@ def project(prop, op, d):
                 f9, fc9 = f9 + f[6:9], fc9 + fc[6:9]
             if len(emp) > 1 and emp[1] == "false":
                 f9, fc9 = f9 + f[9:14], fc9 + fc[9:14]
-            return (r, tuple(f9), d.get("emp"))
-        return (r, d.get("v"), tuple(f))
+            return (r, tuple(f9), d.get("emp"), d.get("fq"))
+        return (r, d.get("v"), tuple(f), d.get("fq"))
     if prop == "C10":
         return (r, _idx(d.get("enc"), L), d.get("se"), d.get("rt")) if r == "1" else (r,)
     if prop == "C11":
